@@ -637,7 +637,13 @@ pub fn run_history(
                     let mut violation = None;
                     if let Some(e) = &r0.error {
                         d.push(Disc { class: "error".into(), detail: format!("recovery: {e}") });
-                        violation = Some(format!("recovery: {e}"));
+                        // listed: a crash while the schema store file is being appended leaves a
+                        // torn record that the next start refuses to read
+                        if e.contains("schema store") && s.path.ends_with("schemas.bin") {
+                            known = vec!["KF-torn-schema-store".to_string()];
+                        } else {
+                            violation = Some(format!("recovery: {e}"));
+                        }
                     } else {
                         let o = parse_obs(&r0.steps[0].replies, &TYPES, &CTXS);
                         d = judge(&o, acked, inflight.as_ref());
@@ -982,6 +988,9 @@ pub fn replay(path: &str, mode: Option<&str>) -> i32 {
     }
     if !hit {
         println!("the recorded crash point / observation shows no discrepancy in this execution");
+    }
+    for g in found.iter().filter(|g| g.violation.is_some() || g.known.is_empty()).take(6) {
+        println!("UNEXPLAINED life {} op {} crash {:?}: {:?} / {:?}", g.life, g.op, g.crash.as_ref().map(|c| (c.kind.clone(), c.path.clone())), g.violation, g.discs.first());
     }
     if hit { 1 } else { 0 }
 }
